@@ -81,6 +81,10 @@ Theorem C08_code_senders_never_block :
   creates_unbounded "events_tx" "events_rx" HotReloader_make = true.
 Proof. exact reloader_channels_never_block_senders. Qed.
 
+(* the thread that runs the loaders and the dependency walk of a pass has the default stack *)
+Theorem C08_code_reloader_thread_has_the_default_stack : spawns_with_default_stack HotReloader_start = true.
+Proof. exact reloader_thread_has_the_default_stack. Qed.
+
 Theorem C08_code_marks_before_recursing : visit_wf DepsGraph_visit = true.
 Proof. exact visit_marks_before_recursing. Qed.
 
